@@ -106,6 +106,11 @@ def _check(prog, typing, timeout_ms, tally, out):
     # (i) extra keyword arguments
     extra = {"zz_extra": SStr(z3.String("extra_s")), "n_extra": SInt(z3.Int("extra_i")), "flag": True,
              "nothing": None}
+    # names a "convenience" feature might treat specially
+    for i, nm in enumerate(["salt", "seed", "weights", "population", "debug", "key", "override", "force", "group", "variant",
+                            "default", "input_id", "cum_weights", "experiment", "name", "id"]):
+        if nm not in A.kwargs and nm != prog.name:
+            extra[nm] = SStr(z3.String("extra_named_%d" % i)) if i % 2 == 0 else SInt(z3.Int("extra_named_%d" % i))
     B = keyrun.keyed_run(prog, typing, extra_kwargs=extra, opts=ABS, gen=A.gen, text=A.text)
     relate(B, "extra keyword arguments", A.text, B.kwargs)
     # (ii) experiment name
